@@ -1,5 +1,6 @@
 import AbraProofs.Lemmas.Analysis
 import AbraProofs.Lemmas.VMCore
+import AbraModel.Sem
 /-!
 # C19 — lambdas capture values at creation, including for nested lambdas
 
@@ -13,6 +14,11 @@ import AbraProofs.Lemmas.VMCore
   locals `0 … n-1` equal to the values the slots held at creation, whatever was stored to the slots (or anywhere
   else) since: the closure object lives in the heap, which only grows.
 * `C19_fresh_locals` — each invocation's other locals are the zeros pushed by its own `PushNil`.
+* `C19_fnref_captures_nothing`, `C19_mkref_captures_nothing`, `C19_fnref_call`, `C19_fnref_snapshot` — on the
+  reference interpreter: a top-level function or a struct constructor used as a VALUE (`let f = twice`,
+  `[twice, twice][1](4)`, `let mk = Pt`) is a function object with an empty environment, whatever is in scope where
+  it is written; calling it is the direct call; a lambda that captured a variable holding it keeps that function
+  when the variable is reassigned afterwards.
 -/
 namespace Abra.Analysis
 
@@ -237,3 +243,70 @@ example : VM.run demo 11 State.init
   decide +kernel
 
 end Abra.VM
+
+namespace Abra.Sem
+
+/-- **A named function used as a value captures nothing**: its function object has the empty environment in every
+    state (the real code: `PushAddr f; MakeClosure 0`). -/
+theorem C19_fnref_captures_nothing (n : Nat) (P : Prog) (s : St) (f : String) (d : FnDef) (h : P.findFn f = some d) :
+    evalE (n + 1) P s (.fnref f) = .ok (.clo d.params d.body []) s := by
+  simp only [evalE, h]
+
+/-- the same for a struct name used as a value: the constructor function takes the fields in declaration order -/
+theorem C19_mkref_captures_nothing (n : Nat) (P : Prog) (s : St) (name : String) (d : StructDef)
+    (h : P.findStruct name = some d) :
+    evalE (n + 1) P s (.mkref name)
+      = .ok (.clo d.fields (.mkStruct name (Exprs.ofList (d.fields.map .var))) []) s := by
+  simp only [evalE, h]
+
+/-- **Calling a named function through its value is the direct call**: same arguments evaluated in the same
+    order, same body, same result, for every fuel — also when the value comes out of an index expression. -/
+theorem C19_fnref_call (n : Nat) (P : Prog) (s : St) (f : String) (args : Exprs) (d : FnDef)
+    (h : P.findFn f = some d) :
+    evalE (n + 1) P s (.callv (.fnref f) args) = evalE (n + 1) P s (.call f args) := by
+  cases n with
+  | zero => simp only [evalE, evalEs, Res.bind, h]
+  | succ m =>
+    simp only [evalE, h]
+    cases evalEs (m + 1) P s args with
+    | ok vs s1 => simp only [Res.bind, evalE, h]
+    | sig g s1 => rfl
+    | timeout => rfl
+    | stuck w => rfl
+
+/-- a program with two functions and a struct, used by the examples below -/
+def fnrefDemo : Prog :=
+  { structs := [{ name := "Pt", fields := ["x", "y"] }],
+    fns := [{ name := "twice", params := ["a"], body := .bin .mul (.var "a") (.int 2) },
+            { name := "inc", params := ["a"], body := .bin .add (.var "a") (.int 1) }],
+    main := .nil }
+
+/-- decidable projection of a result: the three integers of a result tuple -/
+def intTriple : Res Val → Option (Int × Int × Int)
+  | .ok (.tuple [.int a, .int b, .int c]) _ => some (a, b, c)
+  | _ => none
+
+/-- **Snapshot**: `var f = twice; let h = (a) -> f(a); f = inc; h(5)` is 10 (the lambda captured the function that
+    `f` held when the lambda was created), while `f(5)` afterwards is 6; and `[twice, inc][1](4)` is 5. -/
+theorem C19_fnref_snapshot :
+    intTriple (evalE 20 fnrefDemo St.init (.block (Stmts.ofList [
+        .let_ (.bind "f") (.fnref "twice"),
+        .let_ (.bind "h") (.lam ["a"] (.callv (.var "f") (Exprs.ofList [.var "a"]))),
+        .assign "f" .set (.fnref "inc"),
+        .expr (.tuple (Exprs.ofList [.callv (.var "h") (Exprs.ofList [.int 5]), .callv (.var "f") (Exprs.ofList [.int 5]),
+          .callv (.index (.array (Exprs.ofList [.fnref "twice", .fnref "inc"])) (.int 1)) (Exprs.ofList [.int 4])]))])))
+      = some (10, 6, 5) := by
+  decide +kernel
+
+/-! non-vacuity of the hypotheses `findFn … = some …` / `findStruct … = some …` -/
+example : fnrefDemo.findFn "twice" = some { name := "twice", params := ["a"], body := .bin .mul (.var "a") (.int 2) } := rfl
+example : fnrefDemo.findStruct "Pt" = some { name := "Pt", fields := ["x", "y"] } := rfl
+
+/-- `Pt` as a value, called: allocates one struct -/
+def heapSizeOf : Res Val → Option Nat
+  | .ok (.ref _) s => some s.heap.size
+  | _ => none
+example : heapSizeOf (evalE 10 fnrefDemo St.init (.callv (.mkref "Pt") (Exprs.ofList [.int 1, .int 2]))) = some 1 := by
+  decide +kernel
+
+end Abra.Sem
